@@ -26,7 +26,7 @@ from harness.common import dec_str, enc_str
 ID = "C18"
 BACKENDS = ("py", "rs")
 GEN_MODULES = ("Locales",)
-MIN_THEOREMS = 20
+MIN_THEOREMS = 26
 RULE = ("every shipped locale x 7 units x counts 0..200 (quick) / 0..1000 (thorough) x is_now x direction x absolute "
         "through format_diff / DifferenceFormatter.format on real Durations, Intervals or attribute carriers; every rounding "
         "threshold neighbourhood; diff_for_humans(other) on DateTime/Date/Time; in_words on Durations and Intervals; "
